@@ -15,7 +15,7 @@ import random
 
 import numpy as np
 
-from .. import geom, geomgen, tlc, wcsutil
+from .. import par, geom, geomgen, tlc, wcsutil
 from ..tlaparse import parse_dump
 from . import c01, c02, c15
 from .c01 import cfg, kind_sig, validate_events
@@ -104,6 +104,25 @@ def annulus_area(ctx, s):
         ctx.violation(f"C08|area|{s['k']}", f'annulus area {got!r}, outer - inner = {want!r}', {'shape': s})
 
 
+_P = {}
+
+
+def _st_contains(rec, st, idx):
+    rnd = random.Random(_P['seed'] + 7919 * idx)
+    rec.traces += 1
+    c01.replay_state(rec, rnd, st['shape'], st['res']['win'], _P['wlo'], _P['whi'], idx, pid='C08')
+    if _P['annuli']:
+        annulus_area(rec, st['shape'])
+    if idx % _P['sky_stride'] == 0:
+        sky_roundtrip(rec, rnd, st['shape'], st['res']['win'], _P['wlo'], _P['whi'], idx, _P['wcs_pool'])
+
+
+def _st_rotate(rec, st, idx):
+    rnd = random.Random(_P['seed'] + 104729 * idx)
+    rec.traces += 1
+    c15.replay_rotate(rec, rnd, st, -12, 14, idx, pid='C08')
+
+
 def run(ctx):
     quick = ctx.tier == 'quick'
     rnd = random.Random(ctx.seed * 1000003 + 8)
@@ -115,13 +134,10 @@ def run(ctx):
     fam = 'FamCompound'
     res = tlc.run('MC_Geometry', cfg_text=cfg(fam, 'OpsContains', -14, 20, []), dump=True, coverage=True, tag='c08')
     ctx.tlc(res, f'MC_Geometry contains {fam}')
-    n = 0
-    for idx, st in enumerate(parse_dump(res.dump_path, only='pc = "ret"')):
-        c01.replay_state(ctx, rnd, st['shape'], st['res']['win'], -14, 20, idx, pid='C08')
-        if idx % (3 if quick else 1) == 0:
-            sky_roundtrip(ctx, rnd, st['shape'], st['res']['win'], -14, 20, idx, wcs_pool)
-        n += 1
-    ctx.traces += n
+    _P.update(seed=ctx.seed * 1000003 + 8, wcs_pool=wcs_pool, sky_stride=3 if quick else 1, wlo=-14, whi=20, annuli=False)
+    before = ctx.traces
+    par.pmap_dump(ctx, _st_contains, res.dump_path, only='pc = "ret"')
+    n = ctx.traces - before
     ctx.note('replayed_contains', n)
     tlc.cleanup(res.workdir)
     # 2. annuli: xor of helpers = outer minus inner, area difference
@@ -130,13 +146,10 @@ def run(ctx):
     if res.violated:
         ctx.violation(f'C08|model|{res.violated}', f'invariant {res.violated} fails in the model', {'trace': res.trace})
     else:
-        n = 0
-        for idx, st in enumerate(parse_dump(res.dump_path, only='pc = "ret"')):
-            c01.replay_state(ctx, rnd, st['shape'], st['res']['win'], -12, 12, idx, pid='C08')
-            annulus_area(ctx, st['shape'])
-            sky_roundtrip(ctx, rnd, st['shape'], st['res']['win'], -12, 12, idx, wcs_pool)
-            n += 1
-        ctx.traces += n
+        _P.update(sky_stride=1, wlo=-12, whi=12, annuli=True)
+        before = ctx.traces
+        par.pmap_dump(ctx, _st_contains, res.dump_path, only='pc = "ret"')
+        n = ctx.traces - before
         ctx.note('replayed_annuli', n)
     tlc.cleanup(res.workdir)
     # 3. masks on the union box
@@ -178,13 +191,9 @@ def run(ctx):
     if res.violated:
         ctx.violation(f'C08|model|{res.violated}', f'invariant {res.violated} fails in the model', {'trace': res.trace})
     else:
-        n = 0
-        for idx, st in enumerate(parse_dump(res.dump_path, only='pc = "ret"')):
-            if quick and idx % 4:
-                continue
-            c15.replay_rotate(ctx, rnd, st, -12, 14, idx, pid='C08')
-            n += 1
-        ctx.traces += n
+        before = ctx.traces
+        par.pmap_dump(ctx, _st_rotate, res.dump_path, only='pc = "ret"', stride=4 if quick else 1)
+        n = ctx.traces - before
         ctx.note('replayed_rotations', n)
     tlc.cleanup(res.workdir)
     trace_validation(ctx, rnd)
